@@ -68,7 +68,14 @@ func (c *stCase) intern(s string) int {
 	return id
 }
 
-func (c *stCase) str(id int) string { return c.strs[id-1] }
+// str is the string of an intern id; an id that was never interned (corpus lines may carry 0)
+// stands for a string of its own that renders as 0.
+func (c *stCase) str(id int) string {
+	if id < 1 || id > len(c.strs) {
+		return "never-interned-" + strconv.Itoa(id)
+	}
+	return c.strs[id-1]
+}
 
 // idOf maps a stored UUID of network k back to the intern id (0 = unknown).
 func (c *stCase) idOf(k int, u uuid.UUID) int {
